@@ -1,9 +1,9 @@
 (* Linker.v — executable model of BaseLinker.__init__ / solve_t / evaluate_t / solve
    (fsic/core/linkers.py:36-129, 224-346, 424-529, 579-595).  Definitions only.
    Generic in the number type: no fact of arithmetic is used by any theorem about this file.
-   Unlike BaseModel.solve_t the linker has no min_iter>max_iter guard (only `solve` has one), no
-   feasibility guard, no error policy (non-finite values are simply compared), wraps no exception,
-   and never reads `offset`: all of that is mirrored here as it stands. *)
+   Like BaseModel.solve_t the linker rejects min_iter > max_iter (fix 97423a0) and a period without room for its
+   lags / leads (fix a0fbb5c); unlike it, it has no error policy (non-finite values are simply compared), wraps no
+   exception, and never reads `offset`: all of that is mirrored here as it stands. *)
 From Coq Require Import ZArith List Bool.
 Import ListNotations.
 Require Import PyBase Solver.
@@ -226,8 +226,8 @@ Section Linker.
   Definition sel_ids (sel : option (list sid)) (s : lstate) : list sid :=
     match sel with None => map fst (l_subs s) | Some l => l end.     (* default: every key, insertion order *)
 
-  (* BaseLinker.solve_t.  `offset o` is accepted and never read (finding #8). *)
-  Definition linker_solve_t_M (sel : option (list sid)) (o : opts) (t : Z) (s : lstate) : lstate * lout :=
+  (* BaseLinker.solve_t after its two guards.  `offset o` is accepted and never read (finding #8). *)
+  Definition linker_solve_t_body (sel : option (list sid)) (o : opts) (t : Z) (s : lstate) : lstate * lout :=
     let ids := sel_ids sel s in
     match get_check_values ids t s with              (* current_values, taken before zeroing and the pre-hook *)
     | inr e => (s, LRaise (LExn e))
@@ -241,6 +241,22 @@ Section Linker.
             end
         end
     end.
+
+  (* the feasibility guard (fix a0fbb5c): t_check = t (+ len(span) if negative);
+       0 <= t_check < self.lags  or  len(span) - self.leads <= t_check < len(span)  ->  IndexError.
+     self.lags / self.leads are the linker's INSTANCE attributes (set by __init__ to the longest LAGS / LEADS of the
+     submodels): the lags / leads fields of the core's descriptor; len(self.span) = the length of the core's series.
+     A t outside the span passes this test (and fails later, reading the check values). *)
+  Definition linker_infeasible (d : mdesc) (n : nat) (t : Z) : bool :=
+    let tc := if t <? 0 then t + Z.of_nat n else t in
+    ((0 <=? tc) && (tc <? Z.of_nat (lags d))) || ((Z.of_nat n - Z.of_nat (leads d) <=? tc) && (tc <? Z.of_nat n)).
+
+  (* BaseLinker.solve_t: min_iter > max_iter -> ValueError (fix 97423a0), then the feasibility guard -> IndexError
+     (fix a0fbb5c) — both before the selection is looked at and before anything is written — then the body *)
+  Definition linker_solve_t_M (sel : option (list sid)) (o : opts) (t : Z) (s : lstate) : lstate * lout :=
+    if max_iter o <? min_iter o then (s, LRaise (LExn ValueError))
+    else if linker_infeasible (c_desc (l_core s)) (length (status (c_st (l_core s)))) t then (s, LRaise (LExn IndexError))
+    else linker_solve_t_body sel o t s.
 
   (* BaseLinker.solve over the positions delivered by iter_periods (computed before the first solve):
      the only min_iter>max_iter guard of the linker lives here *)
